@@ -4,6 +4,7 @@ import (
 	"context"
 	"fmt"
 	"sort"
+	"strings"
 
 	spb "github.com/openconfig/gribi/v1/proto/service"
 	"google.golang.org/grpc/codes"
@@ -126,7 +127,14 @@ func (e *env) flush(fs0 *FlushSpec) {
 	} else {
 		e.probe("rejected flush: " + x.why[0])
 		if err == nil {
-			e.report("C08", "flush-accepted", x.why[0], desc+" was accepted", false)
+			e.checkpoint(func() {
+				e.report("C08", "flush-accepted", x.why[0], desc+" was accepted", false)
+				if strings.Contains(x.why[0], "network instance") {
+					// a request that names no / an empty / an unknown network instance is malformed input (C12's "unknown
+					// or empty network instance names", request validation anchor), whatever its election field says
+					e.report("C12", "malformed-request-accepted", "Flush: "+x.why[0], desc+" was answered "+resp.GetResult().String(), false)
+				}
+			})
 		}
 		c := status.Code(err)
 		okCode := false
